@@ -121,6 +121,7 @@ class Script(object):
         self.cut_i = 0
         self.silent_waits = silent_waits
         self.eof_delivered = False
+        self.phases = []              # callables(world, sock) -> more items, appended when the stream runs dry
 
     def materialize(self, w, sock):
         if self.items is None:
@@ -207,6 +208,11 @@ class FakeSocket(object):
         if s is None:
             raise EngineLimit('socket without a script was read')
         s.materialize(self.w, self)
+        while s.remaining() == 0 and s.phases:
+            more = s.phases.pop(0)(self.w, self)
+            if more is None:
+                break
+            s.items.extend(more)
         return s
 
     def readable(self):
